@@ -54,7 +54,8 @@ def c15_case(draw, max_jobs: int = 8):
                      # the three documented ways of handing a pipeline to enqueue()
                      "form": draw(st.sampled_from(["list", "yaml", "list", "pipeline", "list"]))})
     fail_at = draw(st.sampled_from([None, None] + list(range(n))))
-    return {"jobs": jobs, "fail_at": fail_at, "workers": draw(st.integers(1, 4)),
+    fail_also = draw(st.sampled_from([None] + list(range(n)))) if fail_at is not None else None  # a second failing job in the same batch
+    return {"jobs": jobs, "fail_at": fail_at, "fail_also": fail_also, "odd_ctx": draw(st.sampled_from([None] * 3 + observe.ODD_NAMES)), "workers": draw(st.integers(1, 4)),
             "switch": draw(st.sampled_from([1e-6, 1e-5, 1e-4, 5e-3])),
             "fail_kind": draw(st.sampled_from(["divide", "yaml_missing", "value_empty", "cfg_not_nodes", "assert_empty", "yaml_invalid", "runtime", "divide"])),
             "enqueue_stall_ms": draw(st.sampled_from([0, 0, 0, 400])), "yaml_reuse": draw(st.sampled_from([False, True])), "shared_pipeline": draw(st.sampled_from([False, True, False]))}
@@ -172,7 +173,7 @@ def run_batch(case: Dict[str, Any]) -> Dict[str, Any]:
     try:
         def enqueue(k: int) -> None:
             job = case["jobs"][k]
-            failing = case["fail_at"] == k
+            failing = k in (case["fail_at"], case.get("fail_also"))
             fk = case.get("fail_kind", "divide")
             cfg = job_config(k, job, failing, fk)
             share = case.get("shared_pipeline") and job.get("form") == "pipeline" and not failing
@@ -182,6 +183,9 @@ def run_batch(case: Dict[str, Any]) -> Dict[str, Any]:
                 cfg = job_config(k0, case["jobs"][k0], False, fk)
             data = observe.build_data(job["payload"])
             ctx = {"tag": k}
+            if case.get("odd_ctx") and k % 2 == 0:
+                # a legal but unusual value travels in the job's context (never consumed by a node)
+                ctx["extra"] = observe.materialise_odd({"$odd": case["odd_ctx"]})
             unloadable = failing and fk in ("yaml_missing", "yaml_invalid", "cfg_not_nodes")
             handed: Any = cfg
             form = job.get("form", "list")
